@@ -86,7 +86,8 @@ Swap(s, i, j) == [s EXCEPT ![i] = s[j], ![j] = s[i]]
 SpecExts(c, ord, name, g) ==
   LET b == BaseExts(name, g)
       sh == IF c = "shuffle" /\ ord = 2 THEN Swap(Swap(b, 2, 8), 4, 6) ELSE b   \* GREASE and padding keep their place
-  IN IF c \in {"psk", "pskstrict"} THEN sh \o << [type |-> 41, body |-> IF sess THEN Fresh(41, g) ELSE <<>>, omit |-> ~sess] >>
+  IN IF c = "custom" THEN SubSeq(b, 1, 10) \o <<X(65300, <<1,2,3,4>>)>> \o <<b[11]>>   \* the custom spec has a GenericExtension
+     ELSE IF c \in {"psk", "pskstrict"} THEN sh \o << [type |-> 41, body |-> IF sess THEN Fresh(41, g) ELSE <<>>, omit |-> ~sess] >>
      ELSE sh
 EmptyHello == [random |-> <<>>, sid |-> <<>>, suites |-> <<>>]
 PresetHello(g) == [random |-> Fresh(1, g), sid |-> Fresh(2, g), suites |-> SpecSuites]
@@ -192,6 +193,28 @@ MBreak ==
   /\ Mut([op |-> "Break", what |-> Breaks[i]])
   /\ Break(IF Breaks[i] = "shortrandom" THEN <<"random">> ELSE <<"break", Breaks[i]>>)
   /\ UNCHANGED <<cfgSNI, hello, exts>>
+\* same-length edits in place of an extension object that is already in the list (and of the session id bytes)
+InPlaces == <<"alpn", "generic", "groups", "versions", "sid">>
+Repl(x, b, b2) == IF x = b THEN b2 ELSE b
+InPlaceOp(w) == CASE w = "alpn"     -> [op |-> "InPlace", what |-> w, id |-> 16, b |-> 51, b2 |-> 52]       \* last byte of the first protocol
+                  [] w = "generic"  -> [op |-> "InPlace", what |-> w, id |-> 65300, b |-> 170, b2 |-> 85]  \* first byte of the data
+                  [] w = "groups"   -> [op |-> "InPlace", what |-> w, id |-> 10, b |-> 25, b2 |-> 24]       \* last entry
+                  [] w = "versions" -> [op |-> "InPlace", what |-> w, id |-> 43, b |-> 770, b2 |-> 769]    \* last entry
+                  [] OTHER          -> [op |-> "InPlace", what |-> w, id |-> 0, b |-> 90, b2 |-> 165]      \* first byte of the session id
+\* the abstract bodies: the last byte stands for the edited field
+NewBody(body, o) == IF body = <<>> THEN body ELSE [body EXCEPT ![Len(body)] = Repl(@, o.b % 256, o.b2 % 256)]
+TheExtBody(t) == exts[CHOOSE i \in DOMAIN exts : exts[i].type = t].body
+MInPlace ==
+  \E k \in DOMAIN InPlaces :
+  LET o == InPlaceOp(InPlaces[k])
+      has == \E i \in DOMAIN exts : exts[i].type = o.id IN
+  /\ Mut(o)
+  /\ IF o.what = "sid"
+     THEN /\ IF hello.sid = <<>> THEN UNCHANGED bvars ELSE EditSessionId(NewBody(hello.sid, o))
+          /\ hello' = [hello EXCEPT !.sid = NewBody(hello.sid, o)] /\ UNCHANGED <<cfgSNI, exts>>
+     ELSE /\ InPlaceExt(o.id, IF has THEN NewBody(TheExtBody(o.id), o) ELSE <<>>, has)
+          /\ exts' = [i \in DOMAIN exts |-> IF exts[i].type = o.id THEN [exts[i] EXCEPT !.body = NewBody(@, o)] ELSE exts[i]]
+          /\ UNCHANGED <<cfgSNI, hello>>
 HasALPN == \E i \in DOMAIN exts : exts[i].type = 16
 MExtALPN ==
   /\ Mut([op |-> "ExtALPN", protos |-> AlpnV(K)])
@@ -240,7 +263,7 @@ Next == \/ MApplyPreset \/ Pre \/ Post
                      \/ ("RemoveSNI" \in Kinds /\ MRemoveSNI) \/ ("EditSuites" \in Kinds /\ MEditSuites)
                      \/ ("EditSessionId" \in Kinds /\ MEditSessionId) \/ ("ExtInsert" \in Kinds /\ MExtInsert)
                      \/ ("ExtRemove" \in Kinds /\ MExtRemove) \/ ("ExtALPN" \in Kinds /\ MExtALPN)
-                     \/ ("ExtSNIField" \in Kinds /\ MExtSNIField) \/ ("Break" \in Kinds /\ MBreak))
+                     \/ ("ExtSNIField" \in Kinds /\ MExtSNIField) \/ ("Break" \in Kinds /\ MBreak) \/ ("InPlace" \in Kinds /\ MInPlace))
         \/ MStart \/ MStartFails \/ MSendCH1 \/ MServerFirst \/ MSendCH2 \/ MRefuseRetry \/ MServerSecond \/ MFinish
 
 Terminal == phase \in {"done", "failed", "refused"}
